@@ -306,7 +306,16 @@ func runC12(c *Ctx) {
 					if len(r.Results) != 3 || isNilConst(resOf(r, 2)) || !pathExists(chf, bcall, r, nil, nil) {
 						continue
 					}
-					late := pathExists(chf, bcall, r, factNil(errAlias(berr), false), nil)
+					// (a defensive exit for a nil request / nil URL after a nil error abandons nothing: there is no request)
+					breq := resultOf(bcall, 0)
+					noReq := func(cond ssa.Value, branch bool) bool {
+						if breq == nil {
+							return false
+						}
+						isReq := vOrigins(oIsValue(breq))
+						return factNil(isReq, true)(cond, branch) || factNil(vFieldLoad("net/http.Request", "URL", isReq), true)(cond, branch)
+					}
+					late := pathExists(chf, bcall, r, anyFact(factNil(errAlias(berr), false), noReq), nil)
 					c.obI("R12.3", r, "no-refusal-after-the-request-was-built", !late, "after buildHTTP succeeded createHttpRequest returns the request: no error exit follows (it would abandon the body: the multipart writer stays blocked and the upload files stay open)", "an error return is reachable after a successful buildHTTP")
 				}
 			}
